@@ -81,6 +81,11 @@ func (l vLine) render() string {
 		}
 		return l.L.Indent + l.L.Dash + name + sep + num + l.L.Trail + eol
 	case vkNote:
+		if l.L.Quote {
+			// written like a quoted name that begins with the comment character: a note all the same (the opening quote
+			// is layout, the closing one ends up in the note's name)
+			return l.L.Indent + l.L.Dash + "\"#" + l.Name + "\": " + l.Text + l.L.Trail + eol
+		}
 		return l.L.Indent + l.L.Dash + "# " + l.Name + ": " + l.Text + l.L.Trail + eol
 	case vkTNote:
 		return l.L.Indent + l.L.Dash + "# " + l.Text + l.L.Trail + eol
@@ -105,6 +110,9 @@ func (r vRec) renderHead() string {
 	}
 	if r.HL.NoColon {
 		return h + r.HL.Trail + eol
+	}
+	if r.HL.Sep != "" { // a dash (and blanks) between the name and the colon: cut like the colon itself
+		return h + r.HL.Sep + r.HL.Trail + eol
 	}
 	return h + ":" + r.HL.Trail + eol
 }
@@ -152,7 +160,11 @@ func (d vDoc) Parsed() []vPRec {
 			case vkEntry:
 				pr.Entries = append(pr.Entries, vPEntry{l.Name, l.Num})
 			case vkNote:
-				pr.Notes = append(pr.Notes, vPNote{l.Name, l.Text})
+				if l.L.Quote {
+					pr.Notes = append(pr.Notes, vPNote{l.Name + "\"", l.Text})
+				} else {
+					pr.Notes = append(pr.Notes, vPNote{l.Name, l.Text})
+				}
 			case vkTNote:
 				pr.Notes = append(pr.Notes, vPNote{"", l.Text})
 			}
@@ -458,7 +470,7 @@ func vGenNumDecimal(t *rapid.T, label string) string {
 var (
 	vIndents = []string{"  ", "  ", "  ", "    ", " ", "\t", "\t  ", "  \t"}
 	vDashes  = []string{"", "", "", "- ", "- ", "-\t", "-  "}
-	vSeps    = []string{": ", ": ", ": ", ": ", ":\t", ":   ", ": \t", " :", " : ", ": \""} // " :" glues the colon to the number; `: "` quotes the number
+	vSeps    = []string{": ", ": ", ": ", ": ", ": ", ":\t", ":   ", ": \t", " :", " : ", ": \"", "-: ", " - ", " -: "} // " :" glues the colon to the number; `: "` quotes the number
 	vTrails  = []string{"", "", "", " ", "  ", "\t"}
 )
 
@@ -502,11 +514,15 @@ func vGenHeadLayout(t *rapid.T, o vLayoutOpts, label string) vLayout {
 	if o.Plain {
 		return vLayout{EOL: "\n"}
 	}
-	return vLayout{
+	l := vLayout{
 		Quote: rapid.IntRange(0, 5).Draw(t, label+".quote") == 0,
 		Trail: vTrails[rapid.IntRange(0, len(vTrails)-1).Draw(t, label+".trail")],
 		EOL:   vGenEOL(t, o, label),
 	}
+	if rapid.IntRange(0, 11).Draw(t, label+".dashcolon") == 0 {
+		l.Sep = []string{"-:", " -:", " - :", "-"}[rapid.IntRange(0, 3).Draw(t, label+".dashcolonv")]
+	}
+	return l
 }
 
 func vGenNoteLayout(t *rapid.T, o vLayoutOpts, label string) vLayout {
@@ -518,6 +534,7 @@ func vGenNoteLayout(t *rapid.T, o vLayoutOpts, label string) vLayout {
 		Trail:  []string{"", "", " "}[rapid.IntRange(0, 2).Draw(t, label+".trail")],
 		EOL:    vGenEOL(t, o, label),
 	}
+	l.Quote = rapid.IntRange(0, 9).Draw(t, label+".quote") == 0 // only named notes are rendered that way
 	if rapid.IntRange(0, 5).Draw(t, label+".dash") == 0 {
 		// a note written as a list item, like the entries around it ("- # weight: 81"): still a note
 		l.Dash = []string{"- ", "-\t", "-  ", "-"}[rapid.IntRange(0, 3).Draw(t, label+".dashv")]
